@@ -79,9 +79,12 @@ pub fn run(res: &mut CheckResult, tier: Tier, seed: u64, known: &Known) {
     }
 }
 
-pub fn replay(tape: &[u16], _known: &Known) -> Result<Option<String>, String> {
+pub fn replay(tape: &[u16], stored: Option<&str>, _known: &Known) -> Result<Option<String>, String> {
     let mut t = Tape::new(tape);
-    let (text, _) = gen_input(&mut t);
+    let text = match stored {
+        Some(s) => s.to_string(),
+        None => gen_input(&mut t).0,
+    };
     let a = xproc::run_dump("dump-syn1", std::slice::from_ref(&text))?;
     let b = xproc::run_dump("dump-syn2", std::slice::from_ref(&text))?;
     if a[0] == b[0] {
